@@ -16,7 +16,7 @@ CHECKS = {
                      "TLC-generated behaviours (simulation, and bounded-exhaustive BFS in thorough) replayed on the real "
                      "headers.Repository at stretch factors 1,3,400(,real prune depth): tip, height, work and the hash/header "
                      "at every height compared with the spec after every operation (incl. equal-work ties and version-0 / empty "
-                     "stores). Schedules: several peer goroutines, a maintenance caller and a (slow or 10000-behind) subscriber "
+                     "stores, Load at any point while the store is the image of one Save, Load on the repository object in use). Schedules: several peer goroutines, a maintenance caller and a (slow or 10000-behind) subscriber "
                      "run concurrently on the real repository; the recorded calls are linearized by TLC (HeaderChainLin).",
                 technique="TLA+ model checking (TLC) + spec-to-code behaviour replay + linearization of concurrent traces by TLC"),
     "C07": dict(level="model_checking", engine="headers", ref="3 C07",
@@ -43,7 +43,8 @@ CHECKS = {
                 technique="TLA+ model checking (TLC) + spec-to-code behaviour replay"),
     "C11": dict(level="model_checking", engine="headers", ref="3 C11",
                 text="SaveLoadSame checked by TLC; replay loads a fresh Repository from the MockStorage after Save and "
-                     "continues the behaviour on it (tip, chain, lookups, stored invalid list, later verdicts); LoadLegacy: "
+                     "continues the behaviour on it (tip, chain, lookups, stored invalid list, later verdicts), directly after the "
+                     "Save or after further submissions (which are then submitted again); LoadLegacy: "
                      "stores holding only version-0 header files (migration) and empty stores are loaded first.",
                 technique="TLA+ model checking (TLC) + spec-to-code behaviour replay"),
     "C12": dict(level="fault_enumeration", engine="headers", ref="3 C12",
@@ -61,7 +62,8 @@ CHECKS = {
     "C19": dict(level="model_checking", engine="headers", ref="3 C19",
                 text="Locators returned by the real repository at seed-chosen points of TLC behaviours (maxima 1,3,10,50; "
                      "stretch 1,3,7) and the outcome of submitting a protocol-conformant peer's reply for every pool chain are "
-                     "recorded and judged by TLC against HeaderLocatorTrace (well-formedness, peer continuation).",
+                     "recorded and judged by TLC against HeaderLocatorTrace (well-formedness, peer continuation); on the real "
+                     "mainnet chain across the split height, starting from a repository that holds only its tip (LocatorLinear).",
                 technique="TLA+ trace validation (TLC) of recorded locators + peer-reply probe"),
 }
 
@@ -96,10 +98,13 @@ CHECKS.update({
                      "a real BitcoinNode over net.Pipe with spies on the header repository, address book and tx processor. "
                      "Selection: SelectedIsReady / FindsOne checked by TLC on NodeSelect.tla (the manager's list walk); its "
                      "behaviours are replayed on the real NodeManager with real nodes in the states unverified (3 sub-states) / "
-                     "ready / busy / stopped and a request must never reach an unverified peer.",
+                     "ready / busy / stopped and a request must never reach an unverified peer. Verify-only disconnect: also for a "
+                     "verifying headers message that stops short of its declared length (VerifyOnlyNeverWaits) and for a peer that "
+                     "never reads (OutChannel.tla: StopCompletes / NobodyLeftBlocked with an unfair peer; the reverse closing order is "
+                     "rejected by TLC on every run and its blocked schedule is played on the real node).",
                 technique="TLA+ model checking (TLC) + spec-generated sessions replayed on the real node", note=SESS_NOTE),
     "C14": dict(level="model_checking", engine="session", ref="3 C14",
-                text="PingAnswered, NeverDeafWhileReady, InSyncWhileReady checked by TLC on PeerSession.tla; conformant "
+                text="PingAnswered, NeverDeafWhileReady (only a message cut short makes the read loop wait), InSyncWhileReady checked by TLC on PeerSession.tla; conformant "
                      "sessions of a verified peer over the full command set (known / unknown / handler-less commands, classic and "
                      "extended framing, payload sizes 0..64 KiB, 4 MiB in thorough, repetition runs) are played against the real "
                      "node; after every message a ping must be answered with its nonce.",
@@ -108,9 +113,9 @@ CHECKS.update({
                 text="Daa.tla transcribes the network's 144-block rule as a case analysis (median-of-three by the network's "
                      "swap network, signed span clamped to [72,288] blocks); SelectsMedian / SpanInRange checked by TLC over every "
                      "timestamp pattern of the six endpoint blocks; every case (4096 in quick) is built as a real 150-header chain "
-                     "with distinct bits, on the main chain, on a fork and after forks at the endpoint blocks, and the bits the real code requires are compared with "
+                     "with distinct bits, on the main chain, on a fork, after forks at the endpoint blocks and as a chain of one-unit-of-work headers (Projected1: the cap where nothing is left to project), and the bits the real code requires are compared with "
                      "the network's formula applied to the endpoints and span TLC selected. Plus: all 2820 real fixture headers "
-                     "with the difficulty check on; easy-target headers with wrong bits on the tip and as fork headers; "
+                     "with the difficulty check on, also after a 2 / 3 header fork overtook the real chain; easy-target headers with wrong bits on the tip and as fork headers; "
                      "single-field mutations of real headers with an independently predicted verdict; all 256 exponent bytes x "
                      "mantissa classes in an isolated worker.",
                 technique="TLA+ case enumeration (TLC) + exhaustive case replay on real header chains",
@@ -134,7 +139,7 @@ CHECKS.update({
                      "subset x start height) is exported and its round replayed on the real NodeManager + BlockManager + "
                      "BlockDownloader with a real headers.Repository and a scripted block source; seed-chosen dynamic scenarios "
                      "(triggers and headers mid-round, source failures, 1 and 2 concurrent downloads, reorg of a pending block, "
-                     "reorg after the rounds completed) "
+                     "reorg after the rounds completed, reorg before the k-th repository read of a round, a slow first source) "
                      "are recorded and validated by TLC (BlockSyncTrace) with the C05 invariants evaluated at every step; the "
                      "trigger hand-over is stressed with aligned header arrivals.",
                 technique="TLA+ model checking incl. liveness (TLC) + scenario replay + trace validation by TLC",
@@ -143,7 +148,7 @@ CHECKS.update({
     "C15": dict(level="exploration", engine="hostile", ref="3 C15",
                 text="Byte-level universality cannot be model checked; the spec (PeerSession.tla) contributes the phase x message "
                      "class structure and the oracle: after any input a session is in sync or closed, there is no crash action. "
-                     "Hostile inputs from 22 mutation operators are delivered before the handshake, during verification and when "
+                     "Hostile inputs from 23 mutation operators (incl. headers messages cut after an acceptable first header, with an alternate header handler installed in a third of the sessions) are delivered before the handshake, during verification and when "
                      "ready (with / without tx manager, verify-only, block request outstanding) to a real BitcoinNode in "
                      "isolated, address-space-limited worker processes; a dead worker, a Run that does not return after the "
                      "connection closes, or a broken second connection is a violation.",
@@ -166,7 +171,9 @@ CHECKS.update({
                      "quiescence (racing events, late start of Run; judged by RunReturns / NoSendBlocked); the node-side "
                      "window runs on the real BitcoinNode over net.Pipe with seed-chosen schedules (incl. blocks larger than the 1000-slot "
                      "hand-over channel with a held processor); traces of the real "
-                     "BlockManager with a scripted block source are validated by TLC against BlockManage.tla.",
+                     "BlockManager with a scripted block source are validated by TLC against BlockManage.tla. Shutdown with a full "
+                     "request queue: StopCompletes / NobodyLeftBlocked on RequestQueue.tla (silent peers are not fair; the reverse "
+                     "closing order is rejected by TLC on every run) and its blocked schedule played on the real BlockManager.",
                 technique="TLA+ model checking incl. liveness (TLC) + behaviour replay + trace validation by TLC",
                 note="Trusted: TLC. The downloader's 2 min / 1 h / 10 min timers are not relied upon. In the call-granularity "
                      "replay the node side is a mirror of BitcoinNode's request bookkeeping; the real node is exercised by the "
